@@ -8,6 +8,14 @@ fn kind(k: &str) -> (String, Vec<u16>, bool) {
     let h = "host: localhost\r\n";
     match k {
         "get" => (format!("GET /hello HTTP/1.1\r\n{h}"), vec![200], false),
+        "piped" => (format!("GET /piped HTTP/1.1\r\n{h}"), vec![200], false),
+        "pipedhead" => (format!("HEAD /piped HTTP/1.1\r\n{h}"), vec![200], true),
+        "pipedrange" => (format!("GET /piped HTTP/1.1\r\n{h}range: bytes=2-5\r\n"), vec![200], false),
+        "stream" => (format!("GET /stream.txt HTTP/1.1\r\n{h}"), vec![200], false),
+        "streamhead" => (format!("HEAD /stream.txt HTTP/1.1\r\n{h}"), vec![200], true),
+        "streamrange" => (format!("GET /stream.txt HTTP/1.1\r\n{h}range: bytes=10-19\r\n"), vec![206], false),
+        "streambeyond" => (format!("GET /stream.txt HTTP/1.1\r\n{h}range: bytes=50-1000\r\n"), vec![206], false),
+        "streampast" => (format!("GET /stream.txt HTTP/1.1\r\n{h}range: bytes=200-300\r\n"), vec![416], false),
         "head" => (format!("HEAD /hello HTTP/1.1\r\n{h}"), vec![200], true),
         "getgz" => (format!("GET /hello HTTP/1.1\r\n{h}accept-encoding: gzip\r\n"), vec![200], false),
         "headgz" => (format!("HEAD /hello HTTP/1.1\r\n{h}accept-encoding: gzip\r\n"), vec![200], true),
@@ -44,7 +52,7 @@ fn kind(k: &str) -> (String, Vec<u16>, bool) {
         _ => unreachable!("{k}"),
     }
 }
-const KINDS: [&str; 30] = ["headbig", "bigbr", "headbigbr", "bigzstd", "headbigzstd", "postpartial", "posthuge", "postlate", "get", "head", "getgz", "headgz", "getbr", "uncached", "empty", "missing", "headmissing", "range", "headrange", "range416", "ims", "unsafe", "headunsafe", "notacceptable", "png406", "post", "options", "cors", "nocontent", "big"];
+const KINDS: [&str; 38] = ["stream", "streamhead", "streamrange", "streambeyond", "streampast", "piped", "pipedhead", "pipedrange", "headbig", "bigbr", "headbigbr", "bigzstd", "headbigzstd", "postpartial", "posthuge", "postlate", "get", "head", "getgz", "headgz", "getbr", "uncached", "empty", "missing", "headmissing", "range", "headrange", "range416", "ims", "unsafe", "headunsafe", "notacceptable", "png406", "post", "options", "cors", "nocontent", "big"];
 
 fn build(limited: bool) -> std::sync::Arc<HostCollection> {
     let mut ext = Extensions::new();
@@ -89,7 +97,19 @@ fn build(limited: bool) -> std::sync::Arc<HostCollection> {
         r.headers_mut().insert("content-type", HeaderValue::from_static("application/json"));
         FatResponse::cache(r)
     }));
-    let mut host = Host::unsecure("localhost", "/nonexistent", ext, host::Options::default());
+    // a handler that sends part of its body from a future, with the whole length declared
+    ext.add_prepare_single("/piped", prepare!(_r, _h, _p, _a, {
+        let r = Response::new(Bytes::from_static(b"first part;"));
+        FatResponse::no_cache(r).with_future_and_len(response_pipe_fut!(pipe, _host, {
+            let _ = pipe.send(Bytes::from_static(b"second part, sent by the future")).await;
+        }), 11 + 31)
+    }));
+    // the built-in streaming extension on a real file of 100 bytes
+    let dir = std::env::temp_dir().join(format!("kvarn-verif-c08-{}", std::process::id()));
+    std::fs::create_dir_all(dir.join("public")).unwrap();
+    std::fs::write(dir.join("public/stream.txt"), (0..100u8).map(|i| b'a' + i % 26).collect::<Vec<u8>>()).unwrap();
+    ext.add_prepare_single("/stream.txt", kvarn::extensions::stream_body());
+    let mut host = Host::unsecure("localhost", dir.to_str().unwrap(), ext, host::Options::default());
     if limited {
         host.limiter = kvarn::limiting::Manager::new(4, 1, 1000.0);
     } else {
@@ -122,6 +142,9 @@ impl Group for Framing {
             // a cold HEAD, then the GET, then HEAD again — for each encoder
             "c08.conn 0 [headbig,big,headbig]".to_owned(),
             "c08.conn 0 [headbigbr,bigbr,headbigbr,headbigzstd,bigzstd,headbigzstd]".to_owned(),
+            // bodies sent by a response future: a handler of its own, and the built-in file streamer with every kind of range
+            "c08.conn 0 [piped,pipedhead,get,pipedrange,pipedhead,piped]".to_owned(),
+            "c08.conn 0 [stream,streamhead,get,streamrange,streambeyond,streampast,streamhead,stream]".to_owned(),
         ];
         // requests arriving in two TCP segments: the blank line on its own, the last LF on its own, cuts elsewhere
         v.push("c08.conn 0 [get,get/2,head/1,get/4,get/3,getgz/2,head/2,get/-1,get/-9,post/2,get]".to_owned());
